@@ -29,6 +29,9 @@ var convFailDocs = []struct{ name, doc string }{
 	{"badpod", "apiVersion: v1\nkind: Pod\nmetadata: {name: badpod, namespace: ns1}\nspec:\n  containers:\n  - {name: c, image: x, ports: \"80\"}\n"},
 	{"badanp", "apiVersion: policy.networking.k8s.io/v1alpha1\nkind: AdminNetworkPolicy\nmetadata: {name: badanp}\nspec:\n  priority: high\n  subject: {namespaces: {}}\n"},
 	{"badsvc", "apiVersion: v1\nkind: Service\nmetadata: {name: badsvc, namespace: ns1}\nspec:\n  ports: \"80\"\n"},
+	// a resource whose only schema violation sits in the (server-populated) status section: malformed all the same
+	{"badstatusdep", "apiVersion: apps/v1\nkind: Deployment\nmetadata: {name: badstatusdep, namespace: ns1}\nspec:\n  replicas: 1\n  selector: {matchLabels: {app: zz}}\n  template: {metadata: {labels: {app: zz}}, spec: {containers: [{name: c, image: x}]}}\nstatus:\n  replicas: three\n"},
+	{"badstatuscj", "apiVersion: batch/v1\nkind: CronJob\nmetadata: {name: badstatuscj, namespace: ns1}\nspec:\n  schedule: \"* * * * *\"\n  jobTemplate: {spec: {template: {metadata: {labels: {app: zz}}, spec: {containers: [{name: c, image: x}], restartPolicy: Never}}}}\nstatus:\n  active: none\n"},
 	// documents without a usable name (missing, empty, generateName only): the severe entry names kind and namespace, so
 	// the token a severe entry must mention is a namespace string of their own
 	{"nonamedepns", "apiVersion: apps/v1\nkind: Deployment\nmetadata: {namespace: nonamedepns, generateName: gen-}\nspec:\n  replicas: three\n  selector: {matchLabels: {app: zz}}\n  template: {metadata: {labels: {app: zz}}, spec: {containers: [{name: c, image: x}]}}\n"},
